@@ -164,15 +164,16 @@ def run(tier, replay=None):
     rep.count('fields of printed types that Display does not emit', n)
     str_equality(prog, rep)
     # unique representation: typestate invariants at every exit of every mutator / constructor, single empty language
-    nctor = c10.representation_obligations(rep)
+    nctor = c10.representation_obligations(rep, cfgs=('K0', 'K1'))
     rep.floor('constructors analysed', nctor, 5)
     results, found = validators.run_all(prog, rep, roles_wanted={'Language', 'Script', 'Region', 'Variant'})
     subtag_api.run(prog, rep)
-    try:
-        from . import emit
-        emit.injectivity_obligations(prog, rep)
-    except ImportError:
-        rep.notes.append('Display injectivity (positional class disjointness) is checked by C05')
+    # equal values print equally and different canonical representations print differently: the printers are their grammars,
+    # each optional part is printed iff present, nothing is printed only when everything is empty (shared with C04); the
+    # re-readability of every printed sentence (injectivity) is the spec round trip of C05
+    from . import emitrules, c05
+    emitrules.check_display(prog, rep)
+    c05.spec_roundtrip(rep)
     rep.explanation = ('x == y iff to_string equal, decided through its structural preconditions: (1) every comparison/hash impl of the ten value types is the derived, field-wise one, so Eq, Ord and Hash '
                        'cannot disagree with each other; (2) fields are declared in the order language, script, region, variants (and id, extensions), which is the order the property states; '
                        '(3) the representation behind one canonical string is unique: ordered collections are sorted/duplicate-free, "no variants" is always None, the empty language is always None '
